@@ -28,17 +28,18 @@ KEYS = ["FIELD", "COMPONENT", "SUBCOMPONENT", "REPETITION", "ESCAPE", "TRUNCATIO
 TEXT_CLASSES = ["ST", "FT", "TX", "ID", "IS", "GTS", "SNM", "WD"]
 
 
-def ec_dict(s, fam):
+def ec_dict(s, fam, trunc=True):
+    """trunc = False: a set of a 2.7+ message without the (optional) truncation character"""
     d = {k: c for k, c in zip(KEYS, s)}
     d["SEGMENT"] = "\r"
     d["GROUP"] = "\r"
-    if fam != 27:
+    if fam != 27 or not trunc:
         del d["TRUNCATION"]
     return d
 
 
-def ec_list(s, fam):
-    return [ord(c) for c in s[:5]] + [ord(s[5]) if fam == 27 else 0]
+def ec_list(s, fam, trunc=True):
+    return [ord(c) for c in s[:5]] + [ord(s[5]) if fam == 27 and trunc else 0]
 
 
 def render(roles, ecs):
@@ -48,27 +49,29 @@ def render(roles, ecs):
 
 
 def distinct_classes():
-    """(module.qualname) -> (version, name, fam) for the textual classes of all versions"""
+    """(module.qualname, family of the version using it) -> (version, name, fam) for the textual classes of all versions;
+    the family (five delimiters, or six from 2.7 on) is that of the VERSION, whatever module the class comes from"""
     import_hl7apy()
     out = {}
     for v in T.versions():
         for name, cls in T.lib(v).BASE_DATATYPES.items():
             if name in TEXT_CLASSES:
-                key = cls.__module__ + "." + cls.__name__
-                fam = 27 if "v2_7" in cls.__module__ else 25
+                fam = 27 if v >= "2.7" else 25
+                key = "%s.%s/%d" % (cls.__module__, cls.__name__, fam)
                 out.setdefault(key, (v, name, fam))
     return out
 
 
 def _leaf_chunk(args):
     import_hl7apy()
-    v, name, fam, ecs, strings = args
+    v, name, fam, ecs, strings = args[:5]
+    trunc = args[5] if len(args) > 5 else True
     cls = T.lib(v).BASE_DATATYPES[name]
-    ecd = ec_dict(ecs, fam)
+    ecd = ec_dict(ecs, fam, trunc)
     out = []
     for roles in strings:
         txt = render(roles, ecs)
-        e = {"k": "leaf", "cls": name, "v": v, "fam": fam, "ec": ec_list(ecs, fam), "in": cps(txt), "out": [], "out2": [],
+        e = {"k": "leaf", "cls": name, "v": v, "fam": fam, "ec": ec_list(ecs, fam, trunc), "in": cps(txt), "out": [], "out2": [],
              "roles": "".join(r[-1] for r in roles)}
         try:
             o = cls(txt).to_er7(ecd)
@@ -88,14 +91,15 @@ def _seg_chunk(args):
     import_hl7apy()
     from hl7apy.core import Segment
     from hl7apy.parser import parse_segment
-    v, fam, ecs, strings = args
+    v, fam, ecs, strings = args[:4]
+    trunc = args[4] if len(args) > 4 else True
     L = T.lib(v)
-    ecd = ec_dict(ecs, fam)
+    ecd = ec_dict(ecs, fam, trunc)
     out = []
     for n, roles in enumerate(strings):
         txt = render(roles, ecs)
         slot = SLOTS[n % len(SLOTS)]
-        e = {"k": "inseg", "v": v, "fam": fam, "ec": ec_list(ecs, fam), "in": cps(txt), "slot": list(slot),
+        e = {"k": "inseg", "v": v, "fam": fam, "ec": ec_list(ecs, fam, trunc), "in": cps(txt), "slot": list(slot),
              "seg": [], "inert": [], "reparsed": [], "roles": "".join(r[-1] for r in roles)}
         try:
             texts = []
@@ -170,6 +174,9 @@ def run(ctx):
                 strings = rnd.sample(full, min(len(full), 600 if quick else 6000)) + longer[:200 if quick else 3000]
             for k in range(4):
                 jobs.append((v, name, fam, ecs, strings[k::4]))
+            if fam == 27:      # the same class with a set that has no truncation character (four-character MSH-2)
+                sub = rnd.sample(strings, min(len(strings), 1500 if quick else 20000))
+                jobs.append((v, name, fam, ecs, sub, False))
     events = []
     for part in pmap(_leaf_chunk, jobs):
         events.extend(part)
@@ -180,6 +187,8 @@ def run(ctx):
             strings = rnd.sample(full, min(len(full), 1200 if quick else 12000)) + longer[:300 if quick else 4000]
             for k in range(2):
                 segjobs.append((v, fam, ecs, strings[k::2]))
+            if fam == 27:
+                segjobs.append((v, fam, ecs, strings[:400 if quick else 4000], False))
     for part in pmap(_seg_chunk, segjobs):
         events.extend(part)
     for i, e in enumerate(events):
